@@ -419,6 +419,25 @@ func wellFormed(m *dm.Message) bool {
 	return true
 }
 
+// svcbTooLong: some SVCB/HTTPS record is longer than 65535 bytes with its Target uncompressed.
+func svcbTooLong(m *dm.Message) bool {
+	for _, sec := range [][]dm.Resource{m.Answers, m.Authorities, m.Additionals} {
+		for i := range sec {
+			switch r := sec[i].Body.(type) {
+			case *dm.SVCBResource:
+				if _, sz := svcbWF(r); sz > 65535 {
+					return true
+				}
+			case *dm.HTTPSResource:
+				if _, sz := svcbWF(&r.SVCBResource); sz > 65535 {
+					return true
+				}
+			}
+		}
+	}
+	return false
+}
+
 // nameShapeOK: what C37 promises about every decoded name.
 func nameShapeOK(s []byte) bool {
 	if len(s) == 0 || len(s) > 255 || s[len(s)-1] != '.' {
@@ -495,11 +514,7 @@ func oracleRoundTrip(o *vu.Out, what string, wf bool, m *dm.Message, packErr err
 	}
 	var m2 dm.Message
 	if err := m2.Unpack(packed); err != nil {
-		sig := ""
-		if tag(err) == "TooManyPtr" {
-			sig = "ptr-depth"
-		}
-		o.Fail(sig, fmt.Sprintf("%s: Unpack of the packed well-formed message fails: %v (packed %x)", what, err, packed))
+		o.Fail("", fmt.Sprintf("%s: Unpack of the packed well-formed message fails: %v (packed %x)", what, err, packed))
 		return
 	}
 	if a, b := dumpMessageOpt(m, withLen), dumpMessageOpt(&m2, withLen); a != b {
@@ -940,16 +955,18 @@ func execUnpack(b []byte, o *vu.Out) string {
 	r3 := vu.Catch(func() string {
 		packed, err := m.Pack()
 		if err != nil {
-			o.Fail("repack-"+tag(err), fmt.Sprintf("accepted message does not re-pack: %v (input %x)", err, b))
+			// The one region left open (known finding): an SVCB/HTTPS record whose Target was
+			// compressed on the wire no longer fits in 65535 bytes once the Target is written out.
+			sig := ""
+			if tag(err) == "ResTooLong" && svcbTooLong(m) {
+				sig = "repack-ResTooLong-svcb"
+			}
+			o.Fail(sig, fmt.Sprintf("accepted message does not re-pack: %v (input %x)", err, b))
 			return ""
 		}
 		var m2 dm.Message
 		if err := m2.Unpack(packed); err != nil {
-			sig := ""
-			if tag(err) == "TooManyPtr" {
-				sig = "ptr-depth"
-			}
-			o.Fail(sig, fmt.Sprintf("re-packed message does not unpack: %v (input %x)", err, b))
+			o.Fail("", fmt.Sprintf("re-packed message does not unpack: %v (input %x)", err, b))
 			return ""
 		}
 		// as FuzzUnpackPack: m (whose Type/Length fields Pack has just refreshed) against m2
@@ -1090,11 +1107,7 @@ func execPNames(t []string, o *vu.Out) string {
 		want := string(it.name.Data[:it.name.Length])
 		got, newOff, err := dm.VerifUnpackName(msg, starts[i])
 		if err != nil {
-			sig := ""
-			if tag(err) == "TooManyPtr" {
-				sig = "ptr-depth"
-			}
-			o.Fail(sig, fmt.Sprintf("packed name %q (#%d at %d of %x) does not unpack: %v", want, i, starts[i], msg, err))
+			o.Fail("", fmt.Sprintf("packed name %q (#%d at %d of %x) does not unpack: %v", want, i, starts[i], msg, err))
 		} else if got != want || newOff != end {
 			o.Fail("", fmt.Sprintf("packed name %q (#%d at %d of %x) unpacks to %q, offset %d want %d", want, i, starts[i], msg, got, newOff, end))
 		}
